@@ -50,6 +50,7 @@ type BackendReq struct {
 type Backend struct {
 	mu      sync.Mutex
 	Reqs    []*BackendReq
+	byTag   map[string][]*BackendReq
 	Srv     *httptest.Server
 	Respond func(w http.ResponseWriter, r *http.Request, rec *BackendReq) // optional
 }
@@ -61,6 +62,12 @@ func (b *Backend) handler(w http.ResponseWriter, r *http.Request) {
 	b.mu.Lock()
 	rec.Seq = len(b.Reqs)
 	b.Reqs = append(b.Reqs, rec)
+	if t := r.Header.Get("X-Vf-Tag"); t != "" {
+		if b.byTag == nil {
+			b.byTag = map[string][]*BackendReq{}
+		}
+		b.byTag[t] = append(b.byTag[t], rec)
+	}
 	b.mu.Unlock()
 	if b.Respond != nil {
 		b.Respond(w, r, rec)
@@ -79,13 +86,9 @@ func (b *Backend) Snapshot() []*BackendReq {
 
 // ByTag returns the recorded requests carrying X-Vf-Tag: tag.
 func (b *Backend) ByTag(tag string) []*BackendReq {
-	var out []*BackendReq
-	for _, r := range b.Snapshot() {
-		if r.Header.Get("X-Vf-Tag") == tag {
-			out = append(out, r)
-		}
-	}
-	return out
+	b.mu.Lock()
+	defer b.mu.Unlock()
+	return append([]*BackendReq{}, b.byTag[tag]...)
 }
 
 type Options struct {
